@@ -21,7 +21,8 @@ pub enum PT {
     S,       // struct S { f: bool, g: E2 }
 }
 
-pub const TYPES: [&str; 10] = ["bool", "int32", "uint8", "string", "(bool,bool)", "(bool,int32)", "E", "Opt[bool]", "S", "(E2,E2)"];
+pub const TYPES: [&str; 14] =
+    ["bool", "int32", "uint8", "string", "(bool,bool)", "(bool,int32)", "E", "Opt[bool]", "S", "(E2,E2)", "(int32,int32)", "(string,int32)", "(int32,string)", "(int32,int32,int32)"];
 
 fn pt_of(name: &str) -> PT {
     match name {
@@ -34,6 +35,10 @@ fn pt_of(name: &str) -> PT {
         "E" => PT::E,
         "Opt[bool]" => PT::OptBool,
         "S" => PT::S,
+        "(int32,int32)" => PT::Tup(vec![PT::I32, PT::I32]),
+        "(string,int32)" => PT::Tup(vec![PT::Str, PT::I32]),
+        "(int32,string)" => PT::Tup(vec![PT::I32, PT::Str]),
+        "(int32,int32,int32)" => PT::Tup(vec![PT::I32, PT::I32, PT::I32]),
         _ => PT::Tup(vec![PT::E2, PT::E2]),
     }
 }
@@ -136,11 +141,13 @@ fn patterns(p: &PT, depth: u32) -> Vec<Pat> {
         }
         _ if depth == 0 => {}
         PT::Tup(ts) => {
+            // multi-column matrices over literal-typed columns: sub-alphabet {_, lit0, lit1}
+            let reduced = ts.iter().all(|t| matches!(t, PT::I32 | PT::Str | PT::U8));
             let mut acc: Vec<Vec<Pat>> = vec![vec![]];
             for t in ts {
                 let mut next = Vec::new();
                 for a in &acc {
-                    for q in patterns(t, depth - 1) {
+                    for q in patterns(t, depth - 1).into_iter().filter(|q| !(reduced && matches!(q, Pat::Var(_)))) {
                         let mut b = a.clone();
                         b.push(q);
                         next.push(b);
@@ -233,6 +240,8 @@ fn tup_fn_name(ts: &[PT]) -> String {
             PT::Bool => "B",
             PT::I32 => "I",
             PT::E2 => "E",
+            PT::Str => "S",
+            PT::U8 => "U",
             _ => "X",
         });
     }
@@ -329,6 +338,10 @@ fn type_items(n: &mut Names) -> Vec<Item> {
     items.push(tup_render_fn(&[PT::Bool, PT::Bool], n));
     items.push(tup_render_fn(&[PT::Bool, PT::I32], n));
     items.push(tup_render_fn(&[PT::E2, PT::E2], n));
+    items.push(tup_render_fn(&[PT::I32, PT::I32], n));
+    items.push(tup_render_fn(&[PT::Str, PT::I32], n));
+    items.push(tup_render_fn(&[PT::I32, PT::Str], n));
+    items.push(tup_render_fn(&[PT::I32, PT::I32, PT::I32], n));
     items.push(fn_def(
         "strS",
         vec![(e, Ty::named("S"))],
@@ -448,17 +461,20 @@ fn specs(tier: Tier) -> Vec<Spec> {
         for r in 0..np {
             out.push(Spec { ty: ty.into(), rows: vec![r], catch_all: false, int_result: false, as_let: true, only_value: None });
         }
-        let maxr = if tier == Tier::Quick { 2 } else { 3 };
+        // rows: quick <= 3 for types with <= 12 patterns, else 2; thorough <= 4 / <= 3 (<= 30 patterns) / 2
+        let maxr = match (tier == Tier::Quick, np) {
+            (true, n) if n <= 12 => 3,
+            (true, _) => 2,
+            (false, n) if n <= 12 => 4,
+            (false, n) if n <= 30 => 3,
+            (false, _) => 2,
+        };
         for rcount in 1..=maxr {
-            // bound the matrix count for rich types at R = 3
-            if rcount == 3 && np > 12 {
-                continue;
-            }
             let mut idx = vec![0usize; rcount];
             loop {
                 for catch_all in [false, true] {
                     for int_result in [false, true] {
-                        if tier == Tier::Quick && int_result && np > 12 {
+                        if tier == Tier::Quick && int_result && (np > 12 || rcount == 3) {
                             continue;
                         }
                         out.push(Spec { ty: ty.into(), rows: idx.clone(), catch_all, int_result, as_let: false, only_value: None });
@@ -495,7 +511,7 @@ impl Family for Patterns {
         &["C06", "C01", "C02", "C04"]
     }
     fn rule(&self) -> &'static str {
-        "scrutinee types {bool,int32,uint8,string,(bool,bool),(bool,int32),E,Opt[bool],S,(E2,E2)}; all patterns (wildcard, variable, 2 literals, constructor/tuple/struct with sub-patterns; depth 2 for S and (E2,E2)); all matrices of <= 2 rows (quick) / <= 3 rows (thorough; 2 for types with > 12 patterns), with and without a trailing catch-all, results unit and int32; every destructuring let; each matrix applied to every value of the type (one program per value when some value matches no row); the scrutinee is an effect probe; each arm prints its index and every variable it binds. non-trivial = matrices where a row other than the first is selected for some value, or some value matches no row; distinct = distinct source text"
+        "scrutinee types {bool,int32,uint8,string,(bool,bool),(bool,int32),E,Opt[bool],S,(E2,E2),(int32,int32),(string,int32),(int32,string),(int32,int32,int32)}; all patterns (wildcard, variable, 2 literals, constructor/tuple/struct with sub-patterns; depth 2 for S and (E2,E2); columns of all-literal-typed tuples use {_, lit0, lit1}); all matrices of <= 3 rows for types with <= 12 patterns, else <= 2 rows (quick) / <= 4 rows for <= 12 patterns, <= 3 rows for <= 30 patterns, else 2 (thorough), with and without a trailing catch-all, results unit and int32; every destructuring let; each matrix applied to every value of the type (one program per value when some value matches no row); the scrutinee is an effect probe; each arm prints its index and every variable it binds. non-trivial = matrices where a row other than the first is selected for some value, or some value matches no row; distinct = distinct source text"
     }
     fn cases(&self, tier: Tier) -> Box<dyn Iterator<Item = Value> + '_> {
         let n = specs(tier).len();
